@@ -156,7 +156,10 @@ where
     /// When this limit is reached, the caller should flush to disk before continuing.
     /// This prevents excessive memory usage during bulk operations.
     #[inline]
+    #[cfg_attr(feature = "verif", allow(unreachable_code))]
     fn batch_limit_reached(&self) -> bool {
+        #[cfg(feature = "verif")]
+        return self.pushed_len() * Self::SIZE_OF_T >= rawdb::verif::max_cache_size(MAX_CACHE_SIZE);
         self.pushed_len() * Self::SIZE_OF_T >= MAX_CACHE_SIZE
     }
 
@@ -167,6 +170,8 @@ where
         T: Copy,
     {
         let batch_count = MAX_CACHE_SIZE / Self::SIZE_OF_T.max(1);
+        #[cfg(feature = "verif")]
+        let batch_count = (rawdb::verif::max_cache_size(MAX_CACHE_SIZE) / Self::SIZE_OF_T.max(1)).max(1);
 
         while self.len() < target_len {
             let count = (target_len - self.len()).min(batch_count);
